@@ -351,6 +351,11 @@ func vdFixedDigest(digestType bufmodule.DigestType, fill byte) bufmodule.Digest 
 func (m *vdModule) finish(digestType bufmodule.DigestType) {
 	wrong := vdKey(m.fullName, m.commitID, vdFixedDigest(digestType, 0xEE))
 	_, err := m.moduleData(wrong).Bucket()
+	if err == nil {
+		// symbolic contents: the uninterpreted digest may happen to be the probe value; then the probe key is the key
+		m.key = wrong
+		return
+	}
 	var mismatch *bufmodule.DigestMismatchError
 	if !errors.As(err, &mismatch) {
 		verifAssert(false, "harness: a wrong key digest is reported as DigestMismatchError")
@@ -544,6 +549,27 @@ func VerifLemma_C09A_CrashPoints() {
 	}
 	if got != nil {
 		verifAssert(vdCheckHit(m, got, "crash"), "a hit after a crash serves exactly the intended module")
+	}
+	if verifParam("CRASH2") == 1 {
+		// the repairing process dies as well (second crash point, numbered from its own first operation)
+		b.ops = 0
+		b.crashAt = verifNondetInt(1, vdMaxOps(m))
+		err2 := vdPutOne(b, m)
+		crashed2 := b.crashed
+		if crashed2 {
+			verifCover("crashed during the repair")
+			verifAssert(!vdMarkerPresent(b) || !crashed, "an interrupted repair never marks an incomplete entry complete")
+		} else {
+			verifAssert(err2 == nil && vdMarkerPresent(b), "an uninterrupted repair completes the entry")
+		}
+		b.crashed, b.crashAt = false, 0
+		got2 := vdGetOne(b, m)
+		if crashed && crashed2 {
+			verifAssert(got2 == nil, "an entry interrupted twice is a miss")
+		}
+		if got2 != nil {
+			verifAssert(vdCheckHit(m, got2, "crash2"), "a hit after two crashes serves exactly the intended module")
+		}
 	}
 	vdRepair(b, m)
 }
